@@ -420,6 +420,60 @@ def main(argv):
                     " ".join(fargs), l, sorted(got.get(l, [])), SHARD_SEED, nsh, want),
                     {"op": "shard", "args": fargs + ["<%d outputs>" % nsh], "line_hex": hexs(l), "impl_files": sorted(got.get(l, [])), "expected_file": want})
                 break
+    # shard -f with bounded multi-column ranges on lines that END with the delimiter or have empty columns inside the range:
+    # the file is the reference fold over the cut pieces (fields b..e-1 joined by the delimiter, empty fields included)
+    def cut_ranges(spec):
+        rs = []
+        for it in spec.split(","):
+            if it.endswith("-"):
+                rs.append((int(it[:-1]) - 1, 1 << 40))
+            elif it.startswith("-"):
+                rs.append((0, int(it[1:])))
+            elif "-" in it:
+                a_, b_ = it.split("-")
+                rs.append((int(a_) - 1, int(b_)))
+            else:
+                rs.append((int(it) - 1, int(it)))
+        out_ = []
+        for b_, e_ in sorted(rs):
+            if out_ and b_ == out_[-1][1]:
+                out_[-1] = (out_[-1][0], e_)
+            else:
+                out_.append((b_, e_))
+        return out_
+    for spec, dch, nsh in (("2-3", b"\t", 5), ("1-2", b"\t", 4), ("2-3,5-6", b" ", 7), ("1-3", b",", 3), ("2-4,6", b"\t", 6)):
+        rs = cut_ranges(spec)
+        batch = [b"x" + dch + b"b" + dch, b"y" + dch + b"b", b"a" + dch, b"a", dch, dch + dch, b"p" + dch + b"q" + dch + dch, b"p" + dch + b"q" + dch + dch + b"r"]
+        for _ in range(40 if c.volume == "quick" else 400):
+            nf = rng.randrange(1, 8)
+            l = dch.join(bytes(rng.choice(b"abc") for _ in range(rng.choice((0, 0, 1, 2)))) for _ in range(nf))
+            batch.append(l)
+            batch.append(l + dch)
+        batch = list(dict.fromkeys(batch))
+        outs = [os.path.join(SCRATCH, "q%d" % i) for i in range(nsh)]
+        for o in outs:
+            if os.path.exists(o):
+                os.unlink(o)
+        st, so, se = run_tool([repo_bin("shard"), "-f", spec, "-d", dch.decode()] + outs, stdin=b"".join(l + b"\n" for l in batch), timeout=60)
+        if st != 0:
+            c.violation("tool/shard: status %s for -f %s" % (st, spec), {"op": "shard", "args": ["-f", spec], "status": str(st)})
+            continue
+        got = {}
+        for i, o in enumerate(outs):
+            for l in open(o, "rb").read().split(b"\n")[:-1]:
+                got.setdefault(l, set()).add(i)
+        for l in batch:
+            fields = l.split(dch)
+            pieces = [dch.join(fields[b_:e_]) for b_, e_ in rs if fields[b_:e_]]
+            want = fold_py(SHARD_SEED, pieces) % nsh
+            c.count(("shard-bounded", spec, l), bucket="tool/shard/bounded-ranges/" + ("trailing-delimiter" if l.endswith(dch) else "other"))
+            c.cov["traces_validated_against_impl"] += 1
+            if got.get(l) != {want}:
+                c.violation("tool/shard-placement: shard -f %s -d %r put line %r into file(s) %s; the reference fold over its cut pieces %r mod %d is %d" % (
+                    spec, dch, l, sorted(got.get(l, [])), pieces, nsh, want),
+                    {"op": "shard", "args": ["-f", spec, "-d", dch.decode(), "<%d outputs>" % nsh], "line_hex": hexs(l), "impl_files": sorted(got.get(l, [])), "expected_file": want})
+                break
+
     # subtract_lines hashes both files with the same seed: exactly the lines of the subtract file disappear
     sub = [bytes(rng.choice(b"abcdefgh ") for _ in range(rng.choice((0, 1, 7, 8, 9, 20)))) for _ in range(8)]
     keep = [l for l in (bytes(rng.choice(b"ijklmnop ") for _ in range(rng.choice((1, 7, 8, 9, 20)))) for _ in range(8)) if l not in sub]
